@@ -216,3 +216,24 @@ from .c08 import in_scope_map_reaches_resolvers  # noqa: E402
 from ..core import share  # noqa: E402
 
 share("C11", "C11.R8", in_scope_map_reaches_resolvers)
+
+
+@rule("C11.R9")
+def tail_read_after_it_is_complete(ctx: Ctx) -> None:
+    """A streaming handler must not read element.tail during the element's own END event (the tail is only complete at the next event)."""
+    from .c08 import _branches, _normalised_event_loop
+
+    for q in (f"{PAR}.handlers.native:XmlEventHandler.process_context", f"{PAR}.handlers.lxml:LxmlEventHandler.process_context"):
+        fi = ctx.repo.func(q)
+        loop = _normalised_event_loop(fi)
+        if loop is None:
+            raise AnalysisError(f"C11.R9: event loop not found in {q}")
+        elem = unparse(loop.target.elts[1])
+        br, _ = _branches(loop)
+        reads = [n for st in br.get("END", []) for n in ast.walk(st) if isinstance(n, ast.Attribute) and n.attr == "tail" and unparse(n.value) == elem]
+        ctx.ob(f"{q.split(':')[1]}: the END branch does not read `{elem}.tail` of the element that is just ending", not reads, at=fi, node=reads[0] if reads else loop, construct="tail read at END",
+               msg="iterparse guarantees an element's tail only once the NEXT event is delivered: when a read chunk of the underlying parser ends right after the end tag the tail is still None and is lost "
+                   "(mixed content in documents larger than one chunk)")
+
+
+share("C08", "C08.R9", tail_read_after_it_is_complete)
